@@ -19,11 +19,14 @@ def build(spec, mapping=True):
     classes = []
     roots = []
     holder_attrs = {}
+    nonleaf = set(b_ for c in spec['classes'] for b_ in c['bases'])
     for i, c in enumerate(spec['classes']):
         ns = {'v%d' % i: orm.Optional(int)}
-        if not c['bases']:
+        if not c['bases'] or i in nonleaf:
+            # a reference typed as this class: roots (all routes) and every other class that has subclasses (seed route)
             ns['holders%d' % i] = orm.Set('Holder', reverse='ref%d' % i)
             holder_attrs['ref%d' % i] = i
+        if not c['bases']:
             roots.append(i)
             if spec['mode'] == 'int':
                 ns['kind'] = orm.Discriminator(int)
@@ -37,6 +40,7 @@ def build(spec, mapping=True):
         db.generate_mapping(create_tables=True)
     b = Built()
     b.db, b.classes, b.Holder, b.roots, b.orm, b.spec = db, classes, Holder, roots, orm, spec
+    b.ref_classes = sorted(holder_attrs.values())
     return b
 
 
@@ -70,8 +74,12 @@ def isinstance_condition(b, e, cs, negate=False):
 
 
 def populate(b, per_class=2):
-    """create objects of every class and one Holder per object; -> {pk: class id}, {holder pk: (root, pk)}"""
+    """create objects of every class, one Holder per object referencing it through the root-typed attribute, and (first object of each
+    class only) one Holder per non-root reference class above it; -> {(root, pk): class id}, {holder pk: (root, pk)}; b.seed_holders =
+    {holder pk: (reference class, root, pk)}"""
     created, holders = {}, {}
+    b.seed_holders = {}
+    seen_cls = set()
     with b.orm.db_session:
         objs = []
         for i, c in enumerate(b.classes):
@@ -85,8 +93,32 @@ def populate(b, per_class=2):
             b.orm.flush()
             created[(r, o.get_pk())] = i
             holders[h.get_pk()] = (r, o.get_pk())
+            if i not in seen_cls:      # first object of this class
+                seen_cls.add(i)
+                b.seed_holders[h.get_pk()] = (r, r, o.get_pk())
+                for c in b.ref_classes:
+                    if c != r and issubclass(b.classes[i], b.classes[c]):
+                        h2 = b.Holder(**{'ref%d' % c: o}); b.orm.flush()
+                        b.seed_holders[h2.get_pk()] = (c, r, o.get_pk())
     return created, holders
 
 
 def cname(o):
     return int(type(o).__name__[1:])
+
+
+def seed_lookup(b, hpk, e, pkname, pk):
+    """fresh session: load only the Holder row (the referenced object enters the identity map as an unloaded seed of the reference's
+    declared class), then look the object up by primary key through class e -> class id | None | 'EXC name'; also reports whether the
+    object really was an unloaded seed"""
+    with b.orm.db_session:
+        b.Holder[hpk]
+        cache = b.db._get_cache()
+        E = b.classes[e]
+        seeds = cache.seeds.get(E._pk_attrs_, ())
+        was_seed = any(o.get_pk() == pk for o in seeds)
+        try:
+            o = E.get(**{pkname: pk})
+            return (None if o is None else cname(o)), was_seed
+        except Exception as ex:
+            return 'EXC ' + type(ex).__name__, was_seed
